@@ -345,7 +345,7 @@ type bodyT struct {
 	Key      uint64 // contract id / user contract id / new valset id
 	Height   int64  // UploadUserSmartContract.BlockHeight
 	Retries  uint32
-	NoFees   bool // Fees == nil: VerifyAgainstTX would dereference it (a C09 site); such messages get no evidence here
+	NoFees   bool // Fees == nil: no transaction matches such a message (VerifyAgainstTX used to dereference it)
 }
 
 func pad32(b []byte) [32]byte {
@@ -385,6 +385,9 @@ func (b *bodyT) coq() string {
 		add(fCtor, zb(b.Ctor))
 	}
 	add(fKey, zu(b.Key))
+	if b.NoFees && (b.Kind == kSLC || b.Kind == kUploadUser) {
+		add(101, zi(1))
+	}
 	return emit.Pair(emit.ZI(int64(b.Kind)), emit.ZI(addrID(common.HexToAddress(b.Relayer))), emit.List(vals))
 }
 
@@ -416,6 +419,9 @@ func (b *bodyT) correct(id uint64, gas uint64, vs vset, sigs []sigE, i int) *cal
 }
 
 func (b *bodyT) fees() *evmtypes.Fees {
+	if b.NoFees {
+		return nil
+	}
 	return &evmtypes.Fees{RelayerFee: b.Fees[0], CommunityFee: b.Fees[1], SecurityFee: b.Fees[2]}
 }
 
@@ -785,6 +791,9 @@ func coqSigs(sigs []sigE) string {
 
 // matches: does the call equal the correct call of some admissible prefix?
 func matches(b *bodyT, id, gas uint64, vs vset, sigs []sigE, c *callSpec) bool {
+	if b.NoFees && (b.Kind == kSLC || b.Kind == kUploadUser) {
+		return false // fees never set: no transaction matches
+	}
 	if b.Kind == kUploadCompass {
 		return c.same(b.correct(id, gas, vs, sigs, 0))
 	}
@@ -803,6 +812,9 @@ func partA(t *testing.T, run *emit.Run, n int) {
 	for it := 0; it < n; it++ {
 		kind := r.Intn(5)
 		b := p.body(kind)
+		if (kind == kSLC || kind == kUploadUser) && r.Intn(12) == 0 {
+			b.NoFees, b.Fees = true, [3]uint64{} // fees never set: whatever the transaction, it must be refused
+		}
 		id := uint64(1 + r.Intn(200))
 		if r.Intn(40) == 0 {
 			id = 1<<63 + uint64(r.Intn(3)) // int64(id) wraps: packed as a huge uint256
@@ -1643,8 +1655,7 @@ func runHistory(t *testing.T, run *emit.Run, idx int) {
 			m, _ := noWinner()
 			b := h.known[m.id]
 			if b.NoFees {
-				run.Count("B.op", "evidence-skipped-nil-fees")
-				continue
+				run.Count("B.op", "evidence-for-message-without-fees")
 			}
 			vs := vset{}
 			if vid := h.vsid[m.id]; vid != 0 {
@@ -1824,9 +1835,8 @@ func (h *history) endBlock(full bool) {
 		}
 		envs = append(envs, emit.Pair(emit.ZU(m.id), coqSpawn(sp, cls != 4)))
 		ps = append(ps, pend{m, w, vs, was})
-		if cls != 0 {
+		if cls != 0 { // logged; the loop goes on with the next message
 			aborted = true
-			break
 		}
 	}
 	before, f0 := h.ids(), e.facts(t)
@@ -1835,9 +1845,7 @@ func (h *history) endBlock(full bool) {
 	if full {
 		// the whole consensus end-blocker (estimates, attestation loop, pruning every 50 blocks) runs below; the state
 		// right after its attestation loop is the dry run's, which is what this step is compared on
-		if aborted {
-			err = errors.New("attestation loop aborted (dry run)")
-		}
+		_ = aborted // the end-blocker returns nil whatever happened to single messages
 		e.ctx = cctx
 	} else {
 		err = e.f.ConsensusKeeper.CheckAndProcessAttestedMessages(e.ctx)
@@ -2075,11 +2083,11 @@ func runTwin(t *testing.T, run *emit.Run) {
 		f0 := e.facts(t)
 		var cls int
 		var err error
-		if viaBlock {
-			err = e.f.ConsensusKeeper.CheckAndProcessAttestedMessages(e.ctx)
-			cls = classify(err)
-			if h.ids()[id] && cls == 0 {
-				cls = 4 // some other queued message made the loop stop first
+		if viaBlock { // the loop returns nil: the message's own class comes from a dry run on a cache context
+			cctx, _ := e.ctx.CacheContext()
+			cls, _ = e.attestOne(t, cctx, id)
+			if err = e.f.ConsensusKeeper.CheckAndProcessAttestedMessages(e.ctx); err != nil {
+				t.Fatalf("CheckAndProcessAttestedMessages: %v", err)
 			}
 		} else {
 			cls, err = e.attestOne(t, e.ctx, id)
@@ -2089,11 +2097,7 @@ func runTwin(t *testing.T, run *emit.Run) {
 		logf("attest id=%d block=%v -> class %d (%v) effects=%v", id, viaBlock, cls, err, eff)
 		h.oracle(id, b, w, cls, vs, eff, was)
 		if viaBlock {
-			res := 0
-			if err != nil {
-				res = 4
-			}
-			h.record("C07.XEndBlock []", res)
+			h.record("C07.XEndBlock []", 0)
 		} else {
 			h.record(fmt.Sprintf("C07.XAttest %d %s", id, coqSpawn(nil, cls != 4)), cls)
 		}
